@@ -219,6 +219,16 @@ def work(idx):
             "exception": s.exception, "y": s.y, "branch": s.branch, "F": str(s.F)[:400],
             "sigma_conflicts": s.sigma_conflicts} for s in specs]
         out["no_obligation"] = nol
+        # documented exceptions (magnitude / rounded-up integer): look for the wording in the module / function text
+        try:
+            text = ((item.module.__doc__ or "") + inspect.getsource(inspect.unwrap(item.fn))).lower()
+        except Exception:  # pylint: disable=broad-except
+            text = ""
+        words = {"abs": ("magnitude", "absolute", "modulus", "abs("), "ceiling": ("ceil", "round", "integer", "order"),
+            "trunc": ("int(",)}
+        for lm in out["lemmas"]:
+            if lm["exception"]:
+                lm["exception_wording_found"] = [w for w in words.get(lm["exception"], ()) if w in text]
         # vector laws offered for several unknowns (once per module, attached to the module's first function)
         if item.key == min(it.key for it in _ITEMS if it.module is item.module):
             modkey = item.module.__name__.removeprefix("symplyphysics.")
@@ -419,7 +429,11 @@ def run(ctx):
         units_seen |= set(tie.get("units", []))
         if tie.get("admissible", 0) == 0:
             n_untied += 1
-            untied.append({"item": r["key"], "why": r.get("inadmissible_sample", "")})
+            reasons = list((r.get("inadmissible") or {}).keys())
+            soft = bool(reasons) and all(x.startswith(("ill-conditioned", "precision-limited", "closed form", "non-finite"))
+                for x in reasons)
+            untied.append({"item": r["key"], "why": r.get("inadmissible_sample", ""), "reasons": reasons[:4],
+                "only_conditioning": soft})
             continue
         if not tie.get("bad"):
             n_tied += 1
@@ -450,6 +464,8 @@ def run(ctx):
                     found_input=False)
             break
     for u in untied:
+        if u["only_conditioning"]:
+            continue    # every drawn point was numerically ill-conditioned: loss of tie coverage, listed in evidence
         if u["item"] not in allow_unex and f"untied:{u['item']}" not in allow_unex:
             ctx.violation(f"C02:{u['item']}:untied", f"no admissible argument tuple found for {u['item']}: {u['why'][:160]}",
                 {"kind": "broken-tie", "item": u["item"], "theorem_or_tie": "numeric tie generator", "why": u["why"]},
@@ -479,7 +495,8 @@ def run(ctx):
     cov["numeric_tie"] = {"functions_tied": n_tied, "functions_untied": n_untied, "real_calls": n_calls,
         "tuples_per_function": _CFG["tuples"], "units_used": sorted(units_seen), "untied": untied[:40]}
     cov["two_point_function_precision_findings"] = tp_items
-    cov["exceptions"] = {lm["name"]: lm["exception"] for r in extracted for lm in r.get("lemmas", []) if lm["exception"]}
+    cov["exceptions"] = {lm["name"]: {"kind": lm["exception"], "wording_found": lm.get("exception_wording_found", [])}
+        for r in extracted for lm in r.get("lemmas", []) if lm["exception"]}
     cov["kinds"] = {}
     for r in extracted:
         for lm in r.get("lemmas", []):
